@@ -132,7 +132,12 @@ def check(prog, ctx):
                         lo = show(strip_casts(kv['init'])).replace(' ', '')
                         hi_scan = show(strip(lp['cond'])['rhs']) if strip(lp['cond']).get('k') == 'Bin' else '?'
                         hi_outer = show(strip(outer['cond'])['rhs']) if strip(outer['cond']).get('k') == 'Bin' else '??'
-                        if sel_var and lo in (v, v + '+1') and hi_scan == hi_outer and strip(lp['cond'])['op'] == strip(outer['cond'])['op']:
+                        # the scan must run in every sweep: no condition between the sweep loop and the scan loop
+                        guarded = [x for n_, stk in enclosing(outer['body'], lambda y: y is c) for x in stk if x['k'] == 'If' and x is not st
+                                   and any(z is lp for z in walk_stmts(x))]
+                        if guarded:
+                            scan_detail = 'the pivot search only runs when %s: pivots that are small but above that threshold are used unexchanged' % show(guarded[0]['cond'])
+                        elif sel_var and lo in (v, v + '+1') and hi_scan == hi_outer and strip(lp['cond'])['op'] == strip(outer['cond'])['op']:
                             scan_ok = True
                             scan_detail = 'rows %s..%s of column %s are scanned by magnitude into `%s`' % (lo, hi_scan, v, sel_var)
                         else:
@@ -226,54 +231,27 @@ def laplace(prog, ctx, det):
     if len(gen) != 1:
         ctx.undecided(R, 'Determinant:expansion', det, 'general branch not unique (%d)' % len(gen))
         return
-    env = gen[0].state.env
-    # factors array: sign*A(0,j)
-    j = Symbol('j', integer=True)
-    fac = [v for v in env.values() if isinstance(v, Arr) and v.name not in ('this.components',)]
-    okf = False
-    fname = None
-    for v in fac:
-        try:
-            vals = [sp.simplify(v.read((sp.Integer(n),))) for n in range(4)]
-        except Exception:
-            continue
-        if all(is_zero(vals[n] - (-1) ** n * A(0, n)) for n in range(4)):
-            okf = True
-            fname = v.name
-    ctx.decide(R, 'Determinant:signs', det, okf, 'cofactor signs alternate +,-,+,- along the first row (table `%s`)' % fname,
-               'no table of factors (-1)^j a[0][j] found')
-    # Sub_Matrix(0, j) pushed in the same loop; final accumulation pairs factor j with minor j
-    okm = False
-    for c in calls(det):
-        if (c.get('callee') or {}).get('q') == M + 'Sub_Matrix':
-            a0, a1 = strip_casts(c['args'][0]), strip_casts(c['args'][1])
-            okm = a0.get('k') == 'Lit' and a0['v'] == '0' and a1.get('k') == 'Ref' and a1.get('rk') == 'local'
-    okacc = False
-    acc_detail = ''
-    for e in all_exprs(det):
-        if e.get('k') == 'Bin' and e['op'] == '+=':
-            r = strip_casts(e['rhs'])
-            if r.get('k') == 'Bin' and r['op'] == '*':
-                ops = [strip_casts(r['lhs']), strip_casts(r['rhs'])]
-                idxs = []
-                dcall = False
-                for o_ in ops:
-                    if o_.get('k') == 'Index' and strip(o_['base']).get('name') == fname:
-                        idxs.append(show(strip_casts(o_['idx'])))
-                    if o_.get('k') == 'Call' and o_.get('kind') == 'method' and o_['callee']['q'] == M + 'Determinant':
-                        ob = strip(o_['obj'])
-                        if ob.get('k') == 'Index':
-                            idxs.append(show(strip_casts(ob['idx'])))
-                            dcall = True
-                if dcall and len(idxs) == 2 and idxs[0] == idxs[1]:
-                    okacc = True
-                acc_detail = show(e)
-    # loop bounds: all columns
-    loops = [s for s in walk_stmts(det.body) if s['k'] == 'For']
-    okb = len(loops) == 2 and all(show(strip(s['cond'])['rhs']) in ('columns', 'rows') and loop_var(s) and show(strip_casts(loop_var(s)['init'])) == '0' for s in loops)
-    ctx.decide(R, 'Determinant:expansion', det, okm and okacc and okb,
-               'det = sum_j factor[j]*det(Sub_Matrix(0,j)) over all columns', 'expansion wiring is wrong: minor(0,j)=%s, pairing=%s (%s), bounds=%s'
-               % (okm, okacc, acc_detail, okb))
+    v = gen[0].value
+    DET = Function(M + 'Determinant', real=True)
+    SUB = Function(M + 'Sub_Matrix', real=True)
+    this = Symbol('obj:this')
+    cols = Symbol('this.columns', integer=True)
+    sums = list(v.atoms(sp.Sum)) if isinstance(v, sp.Basic) else []
+    if len(sums) == 1 and is_zero(v - sums[0]):
+        jv, lo, hi = sums[0].limits[0]
+        term = sums[0].function
+        bad = []
+        for n in range(4):
+            got = sp.simplify(term.subs(jv, n))
+            want = (-1) ** n * A(0, n) * DET(SUB(this, 0, n))
+            if not is_zero(got - want):
+                bad.append('j=%d: %s' % (n, got))
+        okb = lo == 0 and sp.simplify(hi - (cols - 1)) == 0 or lo == 0 and sp.simplify(hi - (rows - 1)) == 0
+        ctx.decide(R, 'Determinant:signs', det, not bad, 'term j is (-1)^j a[0][j] det(Sub_Matrix(0,j))', 'Laplace terms are wrong: %s' % bad[:2],
+                   witness={'terms': bad} if bad else None, form=str(term)[:300])
+        ctx.decide(R, 'Determinant:expansion', det, okb, 'sum over all columns j=0..columns-1', 'expansion runs over j in [%s,%s]' % (lo, hi))
+    else:
+        running_sign(prog, ctx, det, R, A, DET, SUB, this)
     sub = prog.fn(M + 'Sub_Matrix')
     cs = [(c['callee']['name'], show(strip_casts(c['args'][0]))) for c in calls(sub) if c.get('kind') == 'method' and c['callee'].get('inrepo')]
     oks = ('Delete_Row', sub.params[0]['name']) in cs and ('Delete_Column', sub.params[1]['name']) in cs
@@ -338,3 +316,44 @@ def extraction(prog, ctx, inv, elim, scale):
     lps = enclosing(inv.body, lambda n: n is dc[0]) if dc else []
     okn = bool(lps) and any(s['k'] == 'For' and show(strip(s['cond'])['rhs']) == 'N' for s in lps[0][1])
     ctx.decide(R, 'Inverse:extraction', inv, okx and okn, 'the first N columns are removed and the right half returned', 'extraction not recognised')
+
+
+def running_sign(prog, ctx, det, R, A, DET, SUB, this):
+    """Expansion written with a running sign variable: it must flip on EVERY path through the loop body."""
+    loops = [s for s in walk_stmts(det.body) if s['k'] == 'For']
+    cand = None
+    sx = Symx(prog, det)
+    for lp in loops:
+        st = State({})
+        try:
+            entry, cond, live, done, n0 = sx.loop_step(lp, st)
+        except Undecided:
+            continue
+        ents = {k: v for k, v in entry.items() if isinstance(v, Symbol)}
+        paths = [(p.env, p.conds[n0:], 'next') for p in live] + [(o.state.env, o.state.conds[n0:], o.kind) for o in done if o.kind == 'continue']
+        for k, sgn in ents.items():
+            if any(env.get(k) is not None and is_zero(env.get(k) + sgn) for env, _c, _k in paths):
+                cand = (lp, k, sgn, ents, paths)
+    if cand is None:
+        ctx.undecided(R, 'Determinant:expansion', det, 'cofactor expansion not recognised (neither a parity sign nor a running sign)')
+        return
+    lp, ks, sgn, ents, paths = cand
+    noflip = [(conds, kind) for env, conds, kind in paths if env.get(ks) is None or not is_zero(env.get(ks) + sgn)]
+    ctx.decide(R, 'Determinant:signs', det, not noflip, 'the running sign is flipped on every path through the loop body',
+               'the cofactor sign is a running variable that is NOT flipped on the path %s: every column after it gets the wrong sign'
+               % [str(c_) for c_, _k in noflip][:2],
+               witness={'paths': [str(c_) for c_, _k in noflip], 'reproducer': 'a permutation matrix with a zero in the first row: det has the wrong sign'} if noflip else None,
+               line=lp['l'])
+    # accumulated term on the paths that add something
+    jk = [k for k, v_ in ents.items() if any(env.get(k) is not None and is_zero(env.get(k) - v_ - 1) for env, _c, _k in paths)]
+    okterm = False
+    for env, conds, kind in paths:
+        for k, v_ in ents.items():
+            if k in (ks,) or k in jk or env.get(k) is None:
+                continue
+            d = sp.expand(env[k] - v_)
+            if d != 0 and jk:
+                j = ents[jk[0]]
+                if is_zero(d - sgn * A(0, j) * DET(SUB(this, 0, j))):
+                    okterm = True
+    ctx.decide(R, 'Determinant:expansion', det, okterm, 'each step adds sign*a[0][j]*det(Sub_Matrix(0,j))', 'accumulated term not recognised')
